@@ -58,8 +58,15 @@ func c15Run(t *testing.T, root string, N int, wl *iprange.IPRange, hist []c15Ev,
 				sig, why = sg, sprintf(f, a...)
 			}
 		}
+		paused := false
 		check := func(step int, ev c15Ev) {
 			synctest.Wait()
+			if paused {
+				// an accept failure may still lie ahead of the accept loop (it only calls accept(2) when a slot is free);
+				// its retry pause is legitimate: give it (virtual) time before judging who is served
+				time.Sleep(3 * time.Second)
+				synctest.Wait()
+			}
 			serving, waiting := 0, 0
 			for i, c := range cl {
 				c.got += len(c.conn.Take())
@@ -120,6 +127,11 @@ func c15Run(t *testing.T, root string, N int, wl *iprange.IPRange, hist []c15Ev,
 				c := cl[ev.I]
 				c.conn.Fin()
 				c.closed = true
+			case "aerr":
+				// accept(2) fails once with a temporary error (descriptor table full, aborted connection); the accept
+				// loop pauses and goes on - admission control is the same afterwards
+				s.ln.FailAccepts(1, tempAcceptErr(syscall.EMFILE))
+				paused = true
 			}
 			check(step, ev)
 			if why != "" {
@@ -129,6 +141,11 @@ func c15Run(t *testing.T, root string, N int, wl *iprange.IPRange, hist []c15Ev,
 		var kb strings.Builder
 		for _, c := range cl {
 			kb.WriteString(sprintf("%v%v%d%v%v;", c.in, c.closed, c.stats, c.conn.Started(), c.conn.ServerClosed()))
+		}
+		for _, e := range hist {
+			if e.Kind == "aerr" {
+				kb.WriteString("E")
+			}
 		}
 		key = kb.String()
 		nclients = len(cl)
@@ -172,7 +189,7 @@ func c15Run(t *testing.T, root string, N int, wl *iprange.IPRange, hist []c15Ev,
 func TestC15(t *testing.T) {
 	r := NewReporter(t)
 	defer r.Done()
-	r.Rule("Serve(FilterListener(LimitListener(listener, N), whitelist)) wired as in cmd/: N in {1,2,3} (and unlimited) x explicit-state breadth-first search over event histories {arrival inside / outside the whitelist, client i sends a request, client i closes} up to a depth with <= 4N live clients, deduplicated by the abstract state (per client: in/out, closed, requests sent, served, finished); invariants evaluated in every state + capacity-recovery probe from every state; every pattern of 4 arrivals whose connection Close reports an error; plus whitelist spec x source address grid over 127.0.0.0/8 and ::1; the real binary with both flags, and with a client limit under a descriptor limit chosen so that accept(2) fails while a client is served (capacity must come back), and after 2N large transfers that the client reset half-way; distinct by abstract state")
+	r.Rule("Serve(FilterListener(LimitListener(listener, N), whitelist)) wired as in cmd/: N in {1,2,3} (and unlimited) x explicit-state breadth-first search over event histories {arrival inside / outside the whitelist, client i sends a request, client i closes, accept(2) fails once with a temporary error (at most 1, thorough 2 per history)} up to a depth with <= 4N live clients, deduplicated by the abstract state (per client: in/out, closed, requests sent, served, finished); invariants evaluated in every state + capacity-recovery probe from every state; every pattern of 4 arrivals whose connection Close reports an error; plus whitelist spec x source address grid over 127.0.0.0/8 and ::1; the real binary with both flags, and with a client limit under a descriptor limit chosen so that accept(2) fails while a client is served (capacity must come back), and after 2N large transfers that the client reset half-way; distinct by abstract state")
 	w := newWorld(t, "srv/root")
 	defer w.Cleanup()
 	w.File("a.txt", 10, 1)
@@ -237,6 +254,15 @@ func TestC15(t *testing.T) {
 				if ncl < maxClients {
 					ext(c15Ev{Kind: "in"})
 					ext(c15Ev{Kind: "out"})
+				}
+				naerr := 0
+				for _, e := range hist {
+					if e.Kind == "aerr" {
+						naerr++
+					}
+				}
+				if naerr < 1 || (r.Thorough() && naerr < 2) {
+					ext(c15Ev{Kind: "aerr"})
 				}
 				// per-client events; which clients are still open is derived from the history
 				closed := map[int]bool{}
